@@ -439,6 +439,102 @@ Section WithH.
     end.
 End WithH.
 
+(* ------------------------------------------------------------------ the PoW engines' result caches *)
+
+(* consensus/kawpow/kawpow.go and consensus/progpow/progpow.go  ComputePowLight / ComputePowHash.
+   The kernel (kawpowLight / progpowLight; trusted primitive K below) is memoised in an LRU (hashCache,
+   Peek / Add, 10000 entries) that lives as long as the engine, i.e. across the verification of different
+   blocks and shares.  A query is what the engine reads from the header it is asked about. *)
+Record pquery := mkPq {
+  q_hash : bytes;    (* kawpow: AuxPow().Header().SealHash() (sha256d of the donor header without nonce64 / mix);
+                        progpow: the work object header's SealHash() *)
+  q_nonce : Z;       (* kawpow: donor Nonce64(); progpow: NonceU64() *)
+  q_num : Z;         (* kawpow: donor Height(); progpow: PrimeTerminusNumber().Uint64() (epoch / dataset size) *)
+  q_mix : bytes      (* the mix hash the header carries: donor MixHash() resp. MixHash() *)
+}.
+
+Fixpoint le_bytes (n : nat) (x : Z) : bytes :=
+  match n with O => [] | S n' => (x mod 256) :: le_bytes n' (x / 256) end.
+
+Inductive engine_kind := EKawpow | EProgpow.
+
+(* the bytes that are hashed into the cache key *)
+Definition key_material (k : engine_kind) (q : pquery) : bytes :=
+  match k with
+  | EKawpow => q_hash q ++ le_bytes 8 (q_nonce q)                   (* Keccak256(kawpowHeaderHash, LittleEndian(nonce64)) *)
+  | EProgpow => q_mix q ++ q_hash q ++ rev (le_bytes 8 (q_nonce q))  (* header.Hash() = blake3(mixHash | sealHash | nonce), no AuxPow *)
+  end.
+
+Definition ecache := list (bytes * (bytes * bytes)).   (* key -> (mixHash, workHash) *)
+
+Fixpoint ec_find (k : bytes) (c : ecache) : option (bytes * bytes) :=
+  match c with
+  | [] => None
+  | (k', r) :: t => if bytes_eqb k' k then Some r else ec_find k t
+  end.
+
+(* eviction: the entries under the given keys disappear (whatever the LRU policy picks) *)
+Definition ec_evict (ks : list bytes) (c : ecache) : ecache :=
+  filter (fun e => negb (existsb (bytes_eqb (fst e)) ks)) c.
+
+Section Engine.
+  Variable KH : bytes -> bytes.                   (* Keccak256 resp. blake3 *)
+  Variable K : bytes -> Z -> Z -> bytes * bytes.   (* kernel: (hash, nonce, number) -> (mix, pow) *)
+  Variable keyf : pquery -> bytes.                (* key material; the engines use [key_material kind] *)
+
+  Definition kernel_of (q : pquery) : bytes * bytes := K (q_hash q) (q_nonce q) (q_num q).
+
+  (* ComputePowLight: Peek, on a miss run the kernel and Add *)
+  Definition pow_light (c : ecache) (q : pquery) : (bytes * bytes) * ecache :=
+    let key := KH (keyf q) in
+    match ec_find key c with
+    | Some r => (r, c)
+    | None => let r := kernel_of q in (r, (key, r) :: c)
+    end.
+
+  (* ComputePowHash: the header's mix must equal the computed one; None = ErrInvalidMixHash *)
+  Definition mix_check (q : pquery) (r : bytes * bytes) : option bytes :=
+    if bytes_eqb (q_mix q) (fst r) then Some (snd r) else None.
+
+  Definition pow_hash (c : ecache) (q : pquery) : option bytes * ecache :=
+    let '(r, c') := pow_light c q in (mix_check q r, c').
+
+  (* the same without any cache: what a node that has never seen anything answers *)
+  Definition pow_hash_pure (q : pquery) : option bytes := mix_check q (kernel_of q).
+
+  (* a history of verifications, each preceded by an arbitrary eviction *)
+  Fixpoint engine_run_ev (c : ecache) (qs : list (list bytes * pquery)) : list (option bytes) :=
+    match qs with
+    | [] => []
+    | (ev, q) :: t => let '(o, c') := pow_hash (ec_evict ev c) q in o :: engine_run_ev c' t
+    end.
+
+  Definition engine_run (qs : list pquery) : list (option bytes) :=
+    engine_run_ev [] (map (fun q => ([], q)) qs).
+End Engine.
+
+(* kernel answers recorded by the harness from an engine that has no result cache in the path
+   (kawpow: VerifyKawpowShare; progpow: a fresh engine instance per input) *)
+Definition ktable := list ((bytes * Z * Z) * (bytes * bytes)).
+Fixpoint klookup (t : ktable) (h : bytes) (n num : Z) : bytes * bytes :=
+  match t with
+  | [] => ([], [])
+  | ((h', n', num'), r) :: t' => if bytes_eqb h' h && (n' =? n) && (num' =? num) then r else klookup t' h n num
+  end.
+
+Definition obytes_list_eqb_step (a b : option bytes) : bool :=
+  match a, b with
+  | None, None => true
+  | Some x, Some y => bytes_eqb x y
+  | _, _ => false
+  end.
+Fixpoint oblist_eqb (a b : list (option bytes)) : bool :=
+  match a, b with
+  | [], [] => true
+  | x :: a', y :: b' => obytes_list_eqb_step x y && oblist_eqb a' b'
+  | _, _ => false
+  end.
+
 (* ------------------------------------------------------------------ correspondence cases *)
 
 (* double-SHA256 as a finite table recorded by the harness from crypto/sha256 *)
@@ -467,7 +563,10 @@ Inductive case_body :=
 | CAuxRoot (tbl : table) (doge seal : bytes) (o : bytes)
 | CVH (tbl : table) (i : vh_in) (o : verdict)
 | CUncle (tbl : table) (e : env) (h : hdr) (sibling invalid_addr : bool) (time : Z) (seal : bytes)
-         (aux : option auxpow) (o : verdict).
+         (aux : option auxpow) (o : verdict)
+(* a history of ComputePowHash calls on ONE real engine instance (kind 1 = kawpow, otherwise progpow), oldest first:
+   o = what the engine answered (None = error) *)
+| CEngine (kind : Z) (kt : ktable) (qs : list pquery) (o : list (option bytes)).
 
 Definition case := (N * case_body)%type.
 
@@ -530,6 +629,9 @@ Definition body_ok (c : case_body) : bool :=
   | CAuxRoot tbl d s o => bytes_eqb (aux_merkle_root (lookup tbl) d s) o
   | CVH tbl i o => verdict_eqb (verify_header_c08 (lookup tbl) i) o
   | CUncle tbl e h sb ia t s a o => verdict_eqb (verify_uncle_c08 (lookup tbl) e h sb ia t s a) o
+  | CEngine kind kt qs o =>
+      let k := if kind =? 1 then EKawpow else EProgpow in
+      oblist_eqb (engine_run (fun x => x) (klookup kt) (key_material k) qs) o
   end.
 
 Definition case_ok (c : case) : bool := body_ok (snd c).
